@@ -310,6 +310,9 @@ pub fn apply_honest(w: &mut World, n: usize, p: &Proof, c: &Concrete) -> bool {
     match r {
         Res::Ok(true) => {
             w.nodes[n].model = after;
+            if let Some(b) = &p.block {
+                w.nodes[n].became.insert(b.index);
+            }
             w.end_call(call, true);
             w.stats.proofs_accepted += 1;
             let ev = proof_events(p);
@@ -324,6 +327,7 @@ pub fn apply_honest(w: &mut World, n: usize, p: &Proof, c: &Concrete) -> bool {
             }
             if w.fault_fired(n) && matches!(other, Res::Err(..)) {
                 w.aborted = Some("injected fault surfaced in verify_and_apply_proof".into());
+                w.expect_events(n, "failed verify_and_apply_proof", &[]);
                 return false;
             }
             let b = other.brief();
@@ -430,6 +434,7 @@ pub fn offer_untrusted(w: &mut World, n: usize, p: &Proof, what: &str, prop: &st
                 }
             }
             w.nodes[n].model = after;
+            w.nodes[n].events_lost = true;
             w.end_call(call, true);
             let _ = w.drain(n);
             let _ = prop;
